@@ -24,6 +24,17 @@ Inductive flavour := FStr | FVar | FPtr | FXml.
    does not grow the payload); [slen c] is the number of markers, i.e. String::length(). *)
 Definition push (c m : Z) : Z := if m =? 0 then c else 8 * c + m.
 Definition slen (c : Z) : Z := if c <=? 0 then 0 else Z.log2 c / 3 + 1.
+(* the first n markers of c (String::resize(n) with n <= length) *)
+Definition trunc (c n : Z) : Z := if slen c <=? n then c else if n <=? 0 then 0 else c / 8 ^ (slen c - n).
+(* the write accesses of String, all through detach(copyLength, minCapacity):
+   SPush m    append(char m): detach(len, len + 1), then the marker is stored (m = 0: detach() = detach(len, len));
+   STrunc n   resize(min(n, len)) = detach(k, k): the first k markers stay;
+   SReserve n reserve(n) = detach(len, max(len, n)): the contents stay. *)
+Inductive smode := SPush (m : Z) | STrunc (n : Z) | SReserve (n : Z).
+Definition str_newval (md : smode) (c : Z) : Z :=
+  match md with SPush m => push c m | STrunc n => trunc c n | SReserve _ => c end.
+Definition str_need (md : smode) (c : Z) : Z :=
+  match md with SPush m => slen (push c m) | STrunc n => Z.max 0 (Z.min n (slen c)) | SReserve n => Z.max (slen c) n end.
 Inductive handle := HNone | HBlock (b : nat).
 Inductive var := VDead | VLive (refh objh : handle).
 Inductive fault := FUaf (b : nat) | FDouble (b : nat) | FUnderflow (b : nat) | FSharedWrite (b : nat).
@@ -116,24 +127,26 @@ Inductive op :=
 | OAssignVal (v : nat) (c : Z)   (* Variant: v = <container with contents c> | Xml::Variant: v = <text c> *)
 | OWrite (v : nat) (m : Z)       (* s.append(char m) | v.toList().append(m) : write access, then append marker m *)
 | ODetach (v : nat)              (* s.detach() | v.toList() : write access only *)
-| ODestroy (v : nat).            (* v.~H() *)
+| ODestroy (v : nat)             (* v.~H() *)
+| OResize (v : nat) (n : Z)      (* String only: s.resize(min(n, s.length())) *)
+| OReserve (v : nat) (n : Z).    (* String only: s.reserve(n) *)
 
-(* write access of String: detach(copyLength = length, minCapacity = new length), then the marker is
-   stored (m = 0: String::detach(), nothing stored) *)
-Definition str_detach (s : state) (v : nat) (h : handle) (m : Z) : state :=
+(* write access of String: detach(copyLength, minCapacity) in mode md: in place iff `ref == 1 && minCapacity <=
+   capacity`, else a new block of capacity minCapacity | 3 that receives the (first copyLength) characters *)
+Definition str_detach (s : state) (v : nat) (h : handle) (md : smode) : state :=
   match h with
   | HBlock b =>
       let s := touch s b in
       let k := getb s b in
-      if (rc k =? 1) && (slen (push (val k) m) <=? cap k) then
-        write_inplace s b (push (val k) m)
+      if (rc k =? 1) && (str_need md (val k) <=? cap k) then
+        write_inplace s b (str_newval md (val k))
       else
-        let '(s, nb) := alloc s 1 (push (val k) m) (Z.lor (slen (push (val k) m)) 3) in
+        let '(s, nb) := alloc s 1 (str_newval md (val k)) (Z.lor (str_need md (val k)) 3) in
         let s := touch s b in                       (* Memory::copy from the old payload *)
         let s := release FStr s h in
         setv s v (both (HBlock nb))
   | HNone =>                                        (* emptyData: ref = 0, clone path, no release *)
-      let '(s, nb) := alloc s 1 (push 0 m) (Z.lor (slen (push 0 m)) 3) in
+      let '(s, nb) := alloc s 1 (str_newval md 0) (Z.lor (str_need md 0) 3) in
       setv s v (both (HBlock nb))
   end.
 
@@ -183,7 +196,7 @@ Definition ptr_swap (obj_only : bool) (s : state) (a b : nat) (ra oa rb ob : han
 
 Definition op_vars (o : op) : list nat :=
   match o with
-  | OCreate v _ | ONull v | OReset v | OWrite v _ | ODetach v | ODestroy v | OAssignVal v _ => [v]
+  | OCreate v _ | ONull v | OReset v | OWrite v _ | ODetach v | ODestroy v | OAssignVal v _ | OResize v _ | OReserve v _ => [v]
   | OCopy a b | OFromRaw a b | OAssign a b | OSwap a b | OAssignRaw a b => [a; b]
   end.
 
@@ -302,14 +315,14 @@ Definition step_gen (obj_only : bool) (f : flavour) (s : state) (o : op) : state
       end
   | OWrite v m =>
       match f, getv s v with
-      | FStr, VLive r _ => str_detach s v r m
+      | FStr, VLive r _ => str_detach s v r (SPush m)
       | FVar, VLive r _ => var_detach s v r m
       | FXml, VLive r _ => var_detach s v r m
       | _, _ => s
       end
   | ODetach v =>
       match f, getv s v with
-      | FStr, VLive r _ => str_detach s v r 0
+      | FStr, VLive r _ => str_detach s v r (SPush 0)
       | FVar, VLive r _ => var_detach s v r 0
       | FXml, VLive r _ => var_detach s v r 0
       | _, _ => s
@@ -318,6 +331,16 @@ Definition step_gen (obj_only : bool) (f : flavour) (s : state) (o : op) : state
       match getv s v with
       | VLive r _ => setv (release f s r) v VDead
       | VDead => s
+      end
+  | OResize v n =>
+      match f, getv s v with
+      | FStr, VLive r _ => str_detach s v r (STrunc n)
+      | _, _ => s
+      end
+  | OReserve v n =>
+      match f, getv s v with
+      | FStr, VLive r _ => str_detach s v r (SReserve n)
+      | _, _ => s
       end
   end end.
 
